@@ -242,6 +242,32 @@ def _factors(x):
     return None
 
 
+def _order_cases(f, ordv):
+    """{k: block} for the blocks that return while the derivative order is known to be exactly the literal k (switch case or if-chain),
+    and the set of blocks where it is known to be none of the explicitly handled literals"""
+    lits = set()
+    for b, blk in f.blocks.items():
+        t = blk.get("term")
+        if t and isinstance(t.get("cond"), list):
+            for y in sx_find(t["cond"], lambda y: y[0] == "op" and len(y) == 4 and y[1] in ("==", "!=") and _strip(y[2]) == ["var", ordv] and _strip(y[3])[:1] == ["lit"]):
+                lits.add(str(_strip(y[3])[1]))
+        lab = blk.get("case")
+        if isinstance(lab, list) and lab[:1] == ["lit"]:
+            lits.add(str(lab[1]))
+    uni = set(lits) | {"<other>"}
+    VS = value_sets(f, lambda x: _strip(x) == ["var", ordv], uni)
+    cases, other = {}, set()
+    for b, blk in f.blocks.items():
+        if not any(q["k"] == "ret" for q in blk["ev"]):
+            continue
+        vs = VS.get(b, set())
+        if len(vs) == 1 and next(iter(vs)) != "<other>":
+            cases[int(next(iter(vs)))] = b
+        elif vs == {"<other>"}:
+            other.add(b)
+    return cases, other
+
+
 def tables(chk, P):
     chk.rule("TABLE", "Function::Sinusoid: order-k derivative = (+,+,-,-)[k mod 4] a w^k (sin,cos)[k mod 2](w t + p) in every explicit case, the general branch builds the same "
              "factors from the order; Function_<T>::Step: end values and zero derivatives outside the transition, stepAny inside, the k-th stepAny derivative for order k")
@@ -250,11 +276,10 @@ def tables(chk, P):
     if chk.shape(len(fs) == 1, "TABLE", "Sinusoid::calcDerivative:found", "", "%d" % len(fs)):
         f = fs[0]
         seen = 0
-        for b, blk in f.blocks.items():
-            lab = blk.get("case")
-            if not (isinstance(lab, list) and lab[:1] == ["lit"]):
-                continue
-            k = int(lab[1])
+        ordv0 = [d["var"] for _, _, d in f.events(lambda q: q["k"] == "decl" and isinstance(q.get("init"), list) and bool(sx_find(q["init"], lambda y: y[0] == "call" and str(y[1]).endswith("::size"))))]
+        cases_, other_ = _order_cases(f, ordv0[0]) if len(ordv0) == 1 else ({}, set())
+        for k, b in sorted(cases_.items()):
+            blk = f.blocks[b]
             rs = [q for q in blk["ev"] if q["k"] == "ret"]
             if not rs:
                 continue
@@ -269,7 +294,7 @@ def tables(chk, P):
             chk.judge(ok and okarg, "TABLE", "Sinusoid:order-%d" % k, "%s:%d" % (f.file, rs[0]["line"]), "factors %s" % (dict(cnt) if cnt else None))
         chk.shape(seen >= 3, "TABLE", "Sinusoid:explicit-cases", f.loc, "%d" % seen)
         # general branch
-        dfl = [b for b, blk in f.blocks.items() if blk.get("case") == "default"]
+        dfl = sorted(other_)
         decls = {d["var"]: d["init"] for _, _, d in f.events(lambda q: q["k"] == "decl" and q.get("init") is not None)}
         ordv = [v for v, i in decls.items() if isinstance(i, list) and sx_find(i, lambda y: y[0] == "call" and str(y[1]).endswith("::size"))]
         okg = False
@@ -297,11 +322,10 @@ def tables(chk, P):
     if chk.shape(len(fs) == 1, "TABLE", "Step::calcDerivative:found", "", "%d" % len(fs)):
         f = fs[0]
         seen = 0
-        for b, blk in f.blocks.items():
-            lab = blk.get("case")
-            if not (isinstance(lab, list) and lab[:1] == ["lit"]):
-                continue
-            k = int(lab[1])
+        ordv1 = [d["var"] for _, _, d in f.events(lambda q: q["k"] == "decl" and isinstance(q.get("init"), list) and bool(sx_find(q["init"], lambda y: y[0] in ("call", "dcall") and str(y[1]).split("::")[-1] == "size")))]
+        cases1, _o = _order_cases(f, ordv1[0]) if len(ordv1) == 1 else ({}, set())
+        for k, b in sorted(cases1.items()):
+            blk = f.blocks[b]
             rs = [q for q in blk["ev"] if q["k"] == "ret"]
             if not rs:
                 continue
@@ -383,6 +407,88 @@ def _is_wpow(init, ov):
     return isinstance(c, list) and c[:1] == ["call"] and str(c[1]).split("::")[-1] == "pow" and _memname(c[3][0]) == "w" and _strip(c[3][1]) == ["var", ov]
 
 
+def derived(chk, P):
+    chk.rule("DERIVED", "Function_<T>::Step caches quantities derived from its parameters (range, reciprocal interval, direction, typed zero): every constructor or method that "
+             "sets a parameter field also sets every cached field derived from it, so a re-targeted Step equals a freshly built one")
+    cls = "SimTK::Function_::Step"
+    fns = [f for f in P.all_fns() if f.name.startswith(cls + "::") and f.blocks and (f.kind == "ctor" or not f.d.get("const"))]
+    defs = {}          # function id -> {field: expression}
+    for f in fns:
+        dd = {}
+        for it in f.d.get("inits", []) or []:
+            if it.get("field") and it.get("written"):
+                dd[it["field"]] = it["init"]
+        for _, _, q in f.events(lambda q: q["k"] == "assign" and isinstance(q["lhs"], list) and q["lhs"][:1] in (["mem"], ["dmem"]) and q["op"] == "="):
+            r = q["rhs"]
+            while isinstance(r, list) and r[:1] == ["op"] and r[1] == "=":
+                r = r[3]
+            dd[q["lhs"][2]] = r
+        defs[f.id] = dd
+    writers = {fid: set(dd) for fid, dd in defs.items()}
+    # writes through same-class callees (the constructor that calls setParameters)
+    for f in fns:
+        for _, _, e in f.calls():
+            nm = str(e.get("fn", ""))
+            for g in fns:
+                if g is not f and (g.name == nm or g.name.split("::")[-1] == nm.split("::")[-1]) and g.kind != "ctor":
+                    writers[f.id] |= set(defs[g.id])
+    # sources: fields defined as exactly a parameter; dependencies of the others
+    source_of = {}     # (function id, parameter) -> field
+    deps = {}
+    for f in fns:
+        ps = {p_[0] for p_ in f.d["params"]}
+        for fld, ex in defs[f.id].items():
+            e_ = _strip(ex)
+            if isinstance(e_, list) and e_[:1] == ["var"] and e_[1] in ps:
+                source_of[(f.id, e_[1])] = fld
+    for f in fns:
+        ps = {p_[0] for p_ in f.d["params"]}
+        for fld, ex in defs[f.id].items():
+            e_ = _strip(ex)
+            if isinstance(e_, list) and e_[:1] == ["var"] and e_[1] in ps:
+                continue
+            srcs = {source_of[(f.id, y[1])] for y in sx_find(ex, lambda y: y[0] == "var" and (f.id, y[1]) in source_of)}
+            srcs |= {y[2] for y in sx_find(ex, lambda y: y[0] in ("mem", "dmem") and isinstance(y[2], str) and y[2].startswith(cls + "::"))}
+            if srcs:
+                deps.setdefault(fld, set()).update(srcs)
+    # transitive closure onto parameter fields
+    sources = set(source_of.values())
+
+    def roots(fld, seen=()):
+        out = set()
+        for s_ in deps.get(fld, ()):
+            if s_ in sources:
+                out.add(s_)
+            elif s_ not in seen:
+                out |= roots(s_, seen + (fld,))
+        return out
+    chk.shape(len(sources) >= 4 and len(deps) >= 3, "DERIVED", "Step:parameter-and-derived-fields", "", "parameters %s; derived %s" % (sorted(x.split("::")[-1] for x in sources), sorted(x.split("::")[-1] for x in deps)))
+    n = 0
+    for f in fns:
+        setsrc = {fld for fld in writers[f.id] if fld in sources}
+        if not setsrc:
+            continue
+        for d_ in sorted(deps):
+            need = roots(d_) & setsrc
+            if not need:
+                continue
+            n += 1
+            chk.judge(d_ in writers[f.id], "DERIVED", "%s:%s-recomputed-with-%s" % (f.name.split("::")[-1] + ("(ctor)" if f.kind == "ctor" else ""), d_.split("::")[-1], "+".join(sorted(x.split("::")[-1] for x in need))), f.loc,
+                      "%s sets %s but leaves the cached %s as it was" % (f.name.split("::")[-1], sorted(x.split("::")[-1] for x in need), d_.split("::")[-1]))
+    # a cached field that is read by the evaluation routines but set by no constructor or setter at all
+    allw = set()
+    for w_ in writers.values():
+        allw |= w_
+    reads = set()
+    for g in P.all_fns():
+        if g.name.startswith(cls + "::") and g.blocks and g.kind != "ctor":
+            for _, _, q in g.events(lambda q: q["k"] == "mem" and q.get("acc") == "r" and str(q.get("field", "")).startswith(cls + "::")):
+                reads.add(q["field"])
+    never = sorted(x.split("::")[-1] for x in reads - allw)
+    chk.judge(not never, "DERIVED", "Step:every-field-that-is-read-is-set-by-a-constructor-or-setter", "", "read but never set: %s" % never)
+    chk.floor("DERIVED", 6)
+
+
 def run(chk, tier, overlays=()):
     u1 = units_matching(UNITS_STEP)
     P1 = Program(extract(u1, hdr=HDR_STEP, overlays=overlays))
@@ -393,6 +499,7 @@ def run(chk, tier, overlays=()):
     steppoly(chk, P1)
     chain(chk, P1)
     tables(chk, P2)
+    derived(chk, P2)
 
 
 _S = "SimTKcommon/Scalar/include/SimTKcommon/Scalar.h"
@@ -415,6 +522,8 @@ MUTATIONS = [
          old="        case 2: return -a*w*w*  std::sin(w*t + p);", new="        case 2: return -a*w*    std::sin(w*t + p);", expect="TABLE:Sinusoid:order-2"),
     dict(name="Sinusoid general order: sign from order & 1", file=_FN,
          old="            const Real sign = Real(((order/2) & 0x1) ? -1 : 1);", new="            const Real sign = Real((order & 0x1) ? -1 : 1);", expect="TABLE:Sinusoid:general-order"),
+    dict(name="seeded (sub-agent): setParameters no longer refreshes the cached direction", file=_FN,
+         old="        m_x0 = x0; m_x1 = x1; m_ooxr = 1/(x1-x0); m_sign = sign(m_ooxr); ", new="        m_x0 = x0; m_x1 = x1; m_ooxr = 1/(x1-x0); ", expect="DERIVED"),
     dict(name="Step second derivative uses the first-derivative helper", file=_FN,
          old="          case 2: return d2stepAny(1,m_x0,m_ooxr, x) * m_yr;", new="          case 2: return dstepAny(1,m_x0,m_ooxr, x) * m_yr;", expect="TABLE:Step:derivative-order-2"),
 ]
